@@ -16,11 +16,14 @@ import itertools
 import json
 import math
 import os
+import warnings
 
 import numpy as np
 
 import core
 from core import f2h, h2f
+
+warnings.filterwarnings("ignore", category=RuntimeWarning)   # numpy nan/inf warnings of the code under test
 
 # ------------------------------------------------------------------------------------------------ manifest
 RULE = ("scenes = (collider A, collider B, kind, factor) drawn from one PRNG: lattice stream (axis-aligned / 3-4-5 "
@@ -33,10 +36,55 @@ EXPLANATION = ("exit-branch theorems (S2) are proved on the Lean step functions 
                "ties the step functions to the code by replaying every recorded loop-body call of the real tests through "
                "the Lean driver (exact on decisions), and searches the real code with a ground truth that is constructed, "
                "not computed by any library routine")
-PARTIAL = {}
-ASSUMPTIONS = []
-TRUSTED = []
-MANIFEST = dict(text="", note="", technique="", design="§7 C02")
+PARTIAL = {
+    "jolt_true_sound": "step-level (for every loop state), with the C18 solver specification as hypothesis SolverInHull (returned "
+                       "point lies in A-B, reported |v|^2 exact, 0xf only for the origin); the invariant 'all Y[i] in A-B' "
+                       "through update_simplex_y is not proved, so there is no function-level form",
+    "jolt_false_stall_not_deep": "step-level, with the C18 optimality hypothesis SolverBeatsSegment and the loop invariant "
+                                 "dir = -v_prev, prev = |v_prev|^2 stated as hypotheses; first iteration (prev = MAX_FLOAT) not covered",
+    "mpr_outside_portal_sound": "the degenerate zero search direction (v0, v1, v2 collinear inside the discover loop) is not excluded: "
+                                "the theorem concludes that a False on a delta-deep pair can only come from that case",
+    "mpr_refine_true_sound_under_portal_invariant": "PortalInv (origin ray through the portal, non-degenerate) is a hypothesis; it is NOT "
+                                                    "preserved by the code (view-based _swap_vertices, `< EPSILON` ties): see "
+                                                    "mpr_refine_true_flat_portal_asIs_counterexample and finding F-mpr-origin-on-portal-side-plane",
+    "mpr_iteration_cap_exit": "no theorem for discover branch 6 (portal declared built after max_iterations)",
+    "mpr_refine_termination": "_refine_portal has no iteration cap; termination is not proved (model: fuel, Err.fuel)",
+    "libccd_contact_origin_in_tetra_nondegenerate": "non-zero volume and 'origin on the newest point's side of the oldest face' are "
+                                                    "hypotheses; zero-volume simplices make the three sign tests compare 0 == 0",
+    "libccd_degenerate_exits": "no theorem for touching_contact (point_to_triangle < sqrt(eps)), degenerated_triangle / "
+                               "degenerated_tetrahedron (NO_CONTACT), origin_on_AB_segment, origin_lies_on_tetrahedrons_face, "
+                               "|dir|^2 < EPSILON and the iteration-cap exit (all answer by fiat); they are compared step-wise and "
+                               "searched by the oracle only",
+    "nesterov": "gjk_nesterov_accelerated(_primitives)_intersection are not modelled; oracle only (finding F-nesterov-inflation-generic-support)",
+}
+ASSUMPTIONS = [
+    "support mappings are abstract: IsSupport A d (sA d) for every d (property C03 supplies it for the concrete colliders)",
+    "C18 solver specification enters Jolt's solver-dependent exits as hypotheses (SolverInHull, SolverBeatsSegment)",
+    "gap_support assumes the closest pair is attained (minimum-norm point of A-B exists: compact colliders)",
+    "exact real arithmetic in the theorems; the harness compares the same model at Float with the code step by step",
+]
+TRUSTED = [
+    "modelled: _gjk_jolt._intersection_loop + driver loop (solver imported from the C18 model), mpr._discover_portal and all its helpers "
+    "incl. _swap_vertices as it behaves on numpy views, _refine_portal, _portal_*, _expand_portal, _gjk_libccd._gjk, _refine_simplex, "
+    "_line_segment, _triangle, _triangle_ab, _tetrahedron, _rearrange_simplex_to_triangle, distance.point_to_triangle (distance only); "
+    "per-collider arrays v1/v2 are not modelled (never read by the boolean tests)",
+    "ground truth of the oracle: closed-form support values / inner-depth formulas written in harness/props/c02.py, scipy qhull facets "
+    "for polytopes (cross-checked against the vertices)",
+]
+MANIFEST = dict(
+    text=("Lean exit-branch theorems (S2, abstract support mappings, all convex sets, all loop states) for the Jolt, MPR and libccd "
+          "boolean tests: separating-axis / before-origin / refine-false exits imply disjointness, MPR outside-portal and tolerance "
+          "exits imply 'not delta-deep' via deep_support_margin, Jolt's True exits imply dist <= max(tol, sqrt(eps) max|Y|) and its "
+          "stall exits are impossible for deep pairs (given the C18 solver spec), MPR's True exit is sound under the portal invariant "
+          "and provably unsound without it. The loop-body models are tied to the code by replaying every recorded loop-body call of "
+          "real runs (and synthetic inputs around every branch) through the Lean driver, exact on decisions. The oracle constructs "
+          "collider pairs of all types at a prescribed gap / witness depth (truth independent of any library test) and requires "
+          "False / True from all five tests."),
+    note=("trusted: Lean kernel + Mathlib, axioms propext/Classical.choice/Quot.sound; exact-real semantics; C18 solver spec and C03 "
+          "support contract as hypotheses; Nesterov loops oracle-only; partial exits named in PARTIAL; known findings: "
+          "F-nesterov-inflation-generic-support, F-mpr-origin-on-portal-side-plane"),
+    technique="Lean 4 exit-branch proofs on hand-written model + step-wise trace correspondence + constructed-truth oracle",
+    design="§7 C02")
 
 DELTA_K = 1e-3
 TESTS = ["jolt", "libccd", "mpr", "nesterov", "nesterov_prim"]
@@ -841,7 +889,10 @@ def case_jolt_step(inp, out, origin):
     def compare(s):
         parts = s.split()
         if parts[0] == "err":
-            return (state == "exc:" + parts[1]), "model %s, implementation %s" % (s, state), "err:" + parts[1]
+            st = state
+            if parts[1] == "divZero" and not isinstance(st, str):
+                st = call_jolt_step((p, q, Yz, n, tolsq, prev, d))[0]
+            return (st == "exc:" + parts[1]), "model %s, implementation %s" % (s, state), "err:" + parts[1]
         br = int(parts[1])
         m_state, m_n = int(parts[2]), int(parts[3])
         m_prev = h2f(parts[4])
@@ -862,10 +913,12 @@ def case_jolt_step(inp, out, origin):
 
     def redo(eps, rng):
         from distance3d.gjk import _gjk_jolt as J
-        pp = p * (1 + eps * rng.uniform(-1, 1))
-        Yc, dc = np.array(Y), np.array(d)
+        pp = p * (1 + eps * np.array([rng.uniform(-1, 1) for _ in range(3)]))
+        Yc = np.array(Yz) * (1 + eps * np.array([[rng.uniform(-1, 1) for _ in range(3)] for _ in range(4)]))
+        dc = np.array(d)
         try:
-            o = J._intersection_loop(pp, np.array(q), Yc, n, tolsq, prev, dc)
+            with np.errstate(all="ignore"):
+                o = J._intersection_loop(pp, np.array(q), Yc, n, tolsq, prev, dc)
             return (o[0].value, int(o[1]))
         except AssertionError:
             return ("exc:assertFail",)
@@ -878,9 +931,11 @@ def call_jolt_step(inp):
     p, q, Y, n, tolsq, prev, d = inp
     Yc, dc = np.array(Y), np.array(d)
     try:
-        with np.errstate(all="ignore"):
+        with np.errstate(divide="raise", invalid="raise", over="ignore", under="ignore"):
             o = J._intersection_loop(np.array(p), np.array(q), Yc, n, tolsq, prev, dc)
         return (o[0].value, int(o[1]), float(o[2]), Yc, dc)
+    except FloatingPointError:
+        return ("exc:divZero", n, prev, Yc, dc)
     except AssertionError:
         return ("exc:assertFail", n, prev, Yc, dc)
     except ZeroDivisionError:
@@ -899,7 +954,10 @@ def case_libccd_refine(inp, out, origin):
     def compare(s):
         parts = s.split()
         if parts[0] == "err":
-            return (state == "exc:" + parts[1]), "model %s, implementation %s" % (s, state), "err:" + parts[1]
+            st = state
+            if parts[1] == "divZero" and not isinstance(st, str):
+                st = call_libccd_refine((vz, n))[0]     # numpy yields nan silently; numba raises: same input class
+            return (st == "exc:" + parts[1]), "model %s, implementation %s" % (s, state), "err:" + parts[1]
         br = int(parts[1])
         m_state, m_n = int(parts[2]), int(parts[3])
         m_d = dv(parts[4:7])
@@ -929,13 +987,11 @@ def call_libccd_refine(inp):
     vc = np.array(v, dtype=float)
     z = np.zeros((4, 3))
     try:
-        with np.errstate(all="ignore"):
+        with np.errstate(divide="raise", invalid="raise", over="ignore", under="ignore"):
             o = Lc._refine_simplex(vc, z.copy(), z.copy(), n)
         d = None if o[1] is None else np.array(o[1], dtype=float)
-        if o[0].value != 1 and o[0].value != -1 and d is not None and not np.all(np.isfinite(d)):
-            return ("exc:divZero", None, int(o[2]), vc)
         return (o[0].value, d, int(o[2]), vc)
-    except ZeroDivisionError:
+    except (ZeroDivisionError, FloatingPointError):
         return ("exc:divZero", None, n, vc)
 
 
@@ -1094,3 +1150,688 @@ def case_mpr_reach(inp, out, origin):
 STEP_BUILDERS = {"jolt.step": case_jolt_step, "libccd.refine": case_libccd_refine, "mpr.iterate": case_mpr_iterate,
                  "mpr.searchdir": case_mpr_searchdir, "mpr.expand": case_mpr_expand, "mpr.portaldir": case_mpr_portaldir,
                  "mpr.encaps": case_mpr_encaps, "mpr.reach": case_mpr_reach}
+
+
+# ------------------------------------------------------------------------------------------------ run-level cases
+def divides_by_zero(test, sc):
+    """does the implementation divide by zero on this scene? (numpy yields nan silently, numba raises; the model
+    reports `err divZero`)"""
+    from distance3d import gjk, mpr
+    A, B = make_collider(sc["a"]), make_collider(sc["b"])
+    try:
+        with np.errstate(divide="raise", invalid="raise", over="ignore", under="ignore"):
+            {"jolt": gjk.gjk_intersection, "libccd": gjk.gjk_intersection_libccd, "mpr": mpr.mpr_intersection}[test](A, B)
+    except (FloatingPointError, ZeroDivisionError):
+        return True
+    except Exception:  # noqa
+        return False
+    return False
+
+
+def run_redo(sc, test, key):
+    """tie detection for end-to-end cases: the implementation's own (answer, iteration count) on the scene with B
+    moved by eps*L in a random direction"""
+    def redo(eps, rng):
+        s2 = dict(sc)
+        s2["b"] = translate(sc["b"], eps * sc.get("L", 1.0) * rand_unit(rng)) if eps else sc["b"]
+        with Recorder() as r:
+            res = run_test(test, s2)
+        return (res if isinstance(res, bool) else "exc", len(r.rec.get(key, [])))
+    return redo
+
+
+def run_cases(sc, recs):
+    """end-to-end cases for one recorded scene: the model is run with its support queries answered from the
+    recorded trace; compared on the boolean, the iteration count and the exit class"""
+    cases = []
+    origin = {"scene": sc}
+    # Jolt
+    res, rec = recs.get("jolt", (None, {}))
+    steps = rec.get("jolt.step", [])
+    if isinstance(res, bool) and steps:
+        tr = [(i[6], i[0] - i[1]) for i, _ in steps]
+        tokens = [f2h(1e-10), "400"] + enc_trace(tr)
+
+        def cmp_j(s, res=res, n=len(steps)):
+            parts = s.split()
+            if parts[0] != "ok":
+                if s.strip() == "err divZero" and divides_by_zero("jolt", sc):
+                    return True, "", "err:divZero"
+                return False, "model %s, implementation %s" % (s, res), s
+            ok = (int(parts[1]) == int(res)) and int(parts[2]) == n
+            return ok, "model (bool %s, its %s, br %s) vs implementation (bool %d, its %d)" % (
+                parts[1], parts[2], parts[3], int(res), n), int(parts[3])
+        cases.append(StepCase("C02.jolt.run", tokens, res, cmp_j, dict(origin, test="jolt"), run_redo(sc, "jolt", "jolt.step")))
+    # libccd
+    res, rec = recs.get("libccd", (None, {}))
+    sup = rec.get("libccd.support", [])
+    if isinstance(res, bool):
+        A, B = make_collider(sc["a"]), make_collider(sc["b"])
+        f1, f2 = np.array(A.first_vertex(), dtype=float), np.array(B.first_vertex(), dtype=float)
+        tokens = ev(f1) + ev(f2) + ["100"] + enc_trace(sup)
+
+        def cmp_l(s, res=res, n=len(sup)):
+            parts = s.split()
+            if parts[0] != "ok":
+                if s.strip() == "err divZero" and divides_by_zero("libccd", sc):
+                    return True, "", "err:divZero"
+                return False, "model %s, implementation %s" % (s, res), s
+            ok = (int(parts[1]) == int(res)) and int(parts[2]) == n
+            return ok, "model (bool %s, its %s, br %s) vs implementation (bool %d, its %d)" % (
+                parts[1], parts[2], parts[3], int(res), n), int(parts[3])
+        cases.append(StepCase("C02.libccd.run", tokens, res, cmp_l, dict(origin, test="libccd"), run_redo(sc, "libccd", "libccd.support")))
+    # MPR
+    res, rec = recs.get("mpr", (None, {}))
+    sup = rec.get("mpr.support", [])
+    disc = rec.get("mpr.discover", [])
+    if isinstance(res, bool) and disc:
+        (c1, c2, max_it), (dstate, _) = disc[0]
+        tokens = ev(c1) + ev(c2) + [f2h(1e-4), str(max_it), "2000"] + enc_trace(sup)
+
+        def cmp_m(s, res=res, dstate=dstate):
+            parts = s.split()
+            if parts[0] != "ok":
+                return False, "model %s, implementation %s" % (s, res), s
+            dbr, rbr = int(parts[2]), int(parts[3])
+            m_state = {0: -1, 3: -1, 4: -1, 1: 1, 2: 2, 5: 0, 6: 0}[dbr]
+            ok = (int(parts[1]) == int(res)) and m_state == dstate
+            return ok, "model (bool %s, discover br %d, refine br %d) vs implementation (bool %d, portal state %d)" % (
+                parts[1], dbr, rbr, int(res), dstate), "%d/%d" % (dbr, rbr)
+        cases.append(StepCase("C02.mpr.run", tokens, res, cmp_m, dict(origin, test="mpr"), run_redo(sc, "mpr", "mpr.support")))
+    return cases
+
+
+def scene_step_cases(sc, recs, cap=40):
+    cases = []
+    for t, (res, rec) in recs.items():
+        for name, build in STEP_BUILDERS.items():
+            for k, (inp, out) in enumerate(rec.get(name, [])[:cap]):
+                cases.append(build(inp, out, {"scene": sc, "test": t, "call": name, "index": k}))
+    return cases
+
+
+def run_cases_through_driver(ctx, cases, tag, stream):
+    """send all cases to the Lean driver, compare, arbitrate ties. Returns number of disagreements."""
+    if not cases:
+        return 0
+    drv = core.Driver("c02-" + tag)
+    ids = [drv.add(c.fn, "F", c.tokens) for c in cases]
+    out = drv.run()
+    bad = 0
+    rng = ctx.rng
+    for c, cid in zip(cases, ids):
+        s = out.get(cid, "bad missing")
+        if s.startswith("bad"):
+            ctx.broke("correspondence", c.fn, "driver: " + s[:200], _origin_json(c))
+            bad += 1
+            continue
+        ok, msg, br = c.compare(s)
+        ctx.branch(c.fn, br)
+        ctx.count("corr:%s:%s" % (stream, c.fn.split(".", 1)[1]), key=(c.fn, tuple(c.tokens)))
+        if ok:
+            continue
+        # tie arbitration: is the implementation's own decision unstable under a 1e-12 relative perturbation?
+        tie = False
+        if c.redo is not None:
+            base = None
+            try:
+                base = c.redo(0.0, rng)
+                for _ in range(12):
+                    if c.redo(1e-12, rng) != base:
+                        tie = True
+                        break
+            except Exception:  # noqa
+                tie = False
+        if tie:
+            ctx.extra["ties"] = ctx.extra.get("ties", 0) + 1
+            continue
+        bad += 1
+        ctx.broke("correspondence", c.fn, msg, _origin_json(c))
+    return bad
+
+
+def _origin_json(c):
+    o = dict(c.origin)
+    o["fn"] = c.fn
+    o["tokens"] = c.tokens if len(c.tokens) < 200 else c.tokens[:200]
+    return core.jsonable(o)
+
+
+# ------------------------------------------------------------------------------------------------ synthetic step inputs
+MAXF = float(np.finfo(float).max)
+EPS = float(np.finfo(float).eps)
+
+
+def _pt(rng, stream):
+    if stream == "L":
+        return np.array([rng.choice([-2.0, -1.0, -0.5, 0.0, 0.0, 0.5, 1.0, 2.0]) for _ in range(3)])
+    s = 10 ** rng.uniform(-2, 2) if rng.random() < 0.3 else 1.0
+    return np.array([rng.uniform(-1, 1) * s for _ in range(3)])
+
+
+def synth_jolt(rng, stream):
+    """synthetic `_intersection_loop` inputs steered (with the real solver, steering only) to every exit"""
+    from distance3d.gjk import _gjk_jolt as J
+    n = rng.choice([0, 1, 1, 2, 2, 3, 3])
+    Y = np.zeros((4, 3))
+    for i in range(n):
+        Y[i] = _pt(rng, stream)
+    target = rng.choice(["free", "sep", "fail", "tol", "rel", "stall", "inside", "cont"])
+    q = _pt(rng, stream) if rng.random() < 0.5 else np.zeros(3)
+    w = _pt(rng, stream)
+    if target == "inside" and n == 3:
+        # fourth point opposite to the centroid: origin inside the tetrahedron
+        w = -(Y[0] + Y[1] + Y[2]) * rng.choice([0.5, 1.0, 2.0])
+    if target == "rel" and n >= 1:
+        # segment/triangle passing within ~1e-9 of the origin
+        w = -Y[0] * rng.choice([0.5, 1.0, 3.0]) + 1e-9 * _pt(rng, "G")
+    d = rand_unit(rng) if stream == "G" else _pt(rng, "L")
+    if target != "sep" and d.dot(w) < 0:
+        d = -d
+    p = w + q
+    w = p - q
+    prev, tolsq = MAXF, 1e-20
+    Yt = Y.copy()
+    Yt[n] = w
+    try:
+        with np.errstate(all="ignore"):
+            ok, v, vls, simplex = J.get_closest_point_to_origin(Yt, n + 1, MAXF)
+    except Exception:  # noqa
+        ok = False
+    if ok and np.isfinite(vls):
+        if target == "fail":
+            prev = rng.choice([vls, vls * 0.5, np.nextafter(vls, 0.0)])
+        elif target == "tol":
+            tolsq = rng.choice([vls, vls * 2, np.nextafter(vls, np.inf)])
+            prev = rng.choice([MAXF, 2 * vls + 1.0])
+        elif target == "stall":
+            prev = rng.choice([np.nextafter(vls, np.inf), vls * (1 + EPS), vls * (1 + 0.5 * EPS), vls * (1 + 3 * EPS),
+                               vls / (1 - EPS), vls / (1 - 2 * EPS)])
+        elif target == "cont":
+            prev = rng.choice([MAXF, 2 * vls + 1e-3, vls * (1 + 1e-6) + 1e-300])
+    return (p, q, Y, n, float(tolsq), float(prev), d)
+
+
+def synth_simplex(rng, stream, n):
+    v = np.zeros((4, 3))
+    mode = rng.random()
+    for i in range(n):
+        v[i] = _pt(rng, stream)
+    if mode < 0.15 and n >= 2:
+        v[n - 1] = v[rng.randrange(n - 1)]                 # duplicate vertex
+    elif mode < 0.3 and n >= 3:
+        t = rng.choice([0.0, 0.25, 0.5, 1.0, 2.0])
+        v[n - 1] = v[0] + t * (v[1] - v[0])                  # collinear
+    elif mode < 0.4 and n == 4:
+        a, b = rng.choice([0.0, 0.25, 0.5]), rng.choice([0.0, 0.25, 0.5])
+        v[3] = v[0] + a * (v[1] - v[0]) + b * (v[2] - v[0])  # coplanar
+    elif mode < 0.55:
+        c = v[:n].mean(axis=0)
+        v[:n] -= c * rng.choice([1.0, 1.0, 0.5])           # origin at / near the centroid
+    elif mode < 0.62 and n >= 2:
+        t = rng.choice([0.25, 0.5, 0.75])
+        v[:n] -= (1 - t) * v[0] + t * v[1]                   # origin on the edge v0 v1
+    return v
+
+
+def synth_cases(rng, stream, k):
+    """k synthetic calls per loop-body function: the implementation is called directly on the same inputs"""
+    cases = []
+    for i in range(k):
+        inp = synth_jolt(rng, stream)
+        cases.append(case_jolt_step(inp, call_jolt_step(inp), {"synthetic": "jolt.step", "inp": core.jsonable(inp)}))
+        n = rng.choice([2, 3, 3, 4, 4, 4])
+        inp = (synth_simplex(rng, stream, n), n)
+        cases.append(case_libccd_refine(inp, call_libccd_refine(inp), {"synthetic": "libccd.refine", "inp": core.jsonable(inp)}))
+        v = synth_simplex(rng, stream, 4)
+        d = _pt(rng, stream)
+        inp = (v, d, 3)
+        cases.append(case_mpr_iterate(inp, call_mpr_iterate(inp), {"synthetic": "mpr.iterate", "inp": core.jsonable(inp)}))
+        inp = (synth_simplex(rng, stream, 3),)
+        cases.append(case_mpr_searchdir(inp, call_mpr_searchdir(inp), {"synthetic": "mpr.searchdir", "inp": core.jsonable(inp)}))
+        inp = (synth_simplex(rng, stream, 4), _pt(rng, stream))
+        cases.append(case_mpr_expand(inp, call_mpr_expand(inp), {"synthetic": "mpr.expand", "inp": core.jsonable(inp)}))
+        from distance3d import mpr as M
+        vv, dd = _pt(rng, stream), _pt(rng, stream)
+        if rng.random() < 0.4:
+            # around the threshold -10 EPSILON
+            dd = np.array([1.0, 0.0, 0.0])
+            vv = np.array([rng.choice([-10 * EPS, -9 * EPS, -11 * EPS, 0.0, -EPS, np.nextafter(-10 * EPS, 0), np.nextafter(-10 * EPS, -1)]),
+                           rng.uniform(-1, 1), 0.0])
+        cases.append(case_mpr_encaps((vv, dd), (bool(M._encapsulates_origin(vv, dd)),), {"synthetic": "mpr.encaps", "inp": core.jsonable((vv, dd))}))
+        v = synth_simplex(rng, stream, 4)
+        v4, dd = _pt(rng, stream), _pt(rng, stream)
+        tol = 1e-4
+        if rng.random() < 0.4:
+            dd = np.array([0.0, 0.0, 1.0])
+            v4 = np.array([0.3, 0.2, float(v[1:, 2].max()) + rng.choice([1e-4, 1e-4 + EPS, 1e-4 + 2 * EPS, 9e-5, 2e-4, 0.0])])
+        cases.append(case_mpr_reach((v, v4, dd, tol), (bool(M._portal_reach_tolerance(v, v4, dd, tol)),),
+                                    {"synthetic": "mpr.reach", "inp": core.jsonable((v, v4, dd, tol))}))
+        with np.errstate(all="ignore"):
+            pd = M._portal_direction(v)
+        if np.all(np.isfinite(pd)) and np.linalg.norm(np.cross(v[2] - v[1], v[3] - v[1])) > 0:
+            cases.append(case_mpr_portaldir((v,), (np.array(pd),), {"synthetic": "mpr.portaldir", "inp": core.jsonable((v,))}))
+    return cases
+
+
+# ------------------------------------------------------------------------------------------------ band scenes (no truth)
+BAND_FACTORS = [0.0, 1e-9, -1e-9, 1e-6, -1e-6, 1e-3, -1e-3, 0.05, -0.05, 0.5, -0.5, -0.9]
+
+
+def gen_band_scene(rng, stream):
+    """grazing placements (|gap| < delta): used for correspondence only, no ground truth is asserted"""
+    types = (rng.choice(ALL_TYPES), rng.choice(ALL_TYPES))
+    if stream == "L" and rng.random() < 0.4:
+        types = (rng.choice(["sphere", "box", "capsule", "cylinder"]),) * 2
+    a = gen_collider(rng, stream, types[0])
+    b = gen_collider(rng, stream, types[1])
+    if stream == "L" and rng.random() < 0.3 and types[0] == types[1]:
+        b = translate(json.loads(json.dumps(a)), [0, 0, 0])      # identical shape, about to be shifted
+    if stream == "L":
+        n = np.zeros(3)
+        n[rng.randrange(3)] = rng.choice([-1.0, 1.0])
+    else:
+        n = rand_unit(rng)
+    f = rng.choice(BAND_FACTORS)
+    g = f * DELTA_K * scene_L(a, b)
+    if rng.random() < 0.6:
+        shift = support_point(a, n) + g * n - support_point(b, -n)
+    else:
+        shift = (support_value(a, n) + support_value(b, -n) + g) * n
+    b2 = translate(b, shift)
+    return {"a": a, "b": b2, "kind": "band", "n": n.tolist(), "f": f, "stream": stream, "placement": "band",
+            "L": scene_L(a, b2)}
+
+
+# ------------------------------------------------------------------------------------------------ findings
+F_INFLATION = "F-nesterov-inflation-generic-support"
+
+
+def inflation_of(s):
+    return float(s["r"]) if s["type"] in ("sphere", "capsule") else 0.0
+
+
+def classify(test, sc, res):
+    """finding id for a failing (test, scene) or None.  Narrow: the function, the collider-type class, the scene kind
+    and the numerical mechanism (certified gap below the subtracted inflation) must all match."""
+    if test == "nesterov" and sc["kind"] == "sep" and res is True:
+        ta, tb = sc["a"]["type"], sc["b"]["type"]
+        infl = inflation_of(sc["a"]) + inflation_of(sc["b"])
+        generic_path = not (ta in PRIM_TYPES and tb in PRIM_TYPES)
+        # the loop answers `distance - inflation < tolerance` with distance measured between the FULL shapes
+        if infl > 0 and generic_path and sc["cert"] < infl + 1e-6 + 1e-9 * sc["L"]:
+            return F_INFLATION
+    if test == "mpr":
+        return classify_mpr(sc, res)
+    return None
+
+
+F_MPR_SIDE = "F-mpr-origin-on-portal-side-plane"
+
+
+def mpr_true_exit_portal(sc):
+    """re-run mpr_intersection with the recorders: the portal from which `_refine_portal` answered True (or None)"""
+    recs = record_scene(sc, tests=("mpr",))
+    res, rec = recs["mpr"]
+    enc = rec.get("mpr.encaps", [])
+    pd = rec.get("mpr.portaldir", [])
+    if res is True and pd and enc and enc[-1][1][0] is True:
+        return pd[-1][0][0], pd[-1][1][0]
+    return None
+
+
+def classify_mpr(sc, res):
+    """F-mpr-origin-on-portal-side-plane: `_refine_portal` answered True from a portal one of whose side faces
+    (v0, vi, vj) is exactly coplanar with the origin (triple product 0: a tie of the `< EPSILON` / `> 0` side tests of
+    `_iterate_discover_portal` / `_expand_portal`), which includes the completely flat portal (v0..v3 and the origin
+    coplanar, `v1 . dir = 0 > -10 EPSILON` vacuously).  Only exactly symmetric (lattice) placements produce it."""
+    if not (sc["kind"] == "sep" and res is True):
+        return None
+    pe = mpr_true_exit_portal(sc)
+    if pe is None:
+        return None
+    v, d = pe
+    S = _scale(v)
+    dets = [abs(float(np.dot(np.cross(v[0], v[i]), v[j]))) for i, j in ((1, 2), (2, 3), (3, 1))]
+    if min(dets) <= 1e-12 * S ** 3:
+        return F_MPR_SIDE
+    return None
+
+
+def still_fails(test, sc):
+    ok, cert, delta = recheck_truth(sc)
+    if not ok:
+        return False
+    return run_test(test, sc) != expected(sc)
+
+
+def minimise(test, sc):
+    """greedy simplification of a failing scene keeping (a) the independent certificate and (b) the failure"""
+    import copy
+    cur = copy.deepcopy(sc)
+
+    def attempt(mut):
+        nonlocal cur
+        cand = copy.deepcopy(cur)
+        try:
+            mut(cand)
+            cand["L"] = scene_L(cand["a"], cand["b"])
+            cand["delta"] = DELTA_K * cand["L"]
+            ok, cert, delta = recheck_truth(cand)
+            if ok and run_test(test, cand) != expected(cand):
+                cand["cert"] = cert
+                cur = cand
+                return True
+        except Exception:  # noqa
+            pass
+        return False
+
+    def shift_all(c, d):
+        c["a"] = translate(c["a"], d)
+        c["b"] = translate(c["b"], d)
+        if "z" in c:
+            c["z"] = (np.array(c["z"]) + d).tolist()
+
+    attempt(lambda c: shift_all(c, -centre(c["a"])))
+    for key in ("a", "b"):
+        if "R" in cur[key]:
+            def ident(c, key=key):
+                # rotate the whole scene by R^T of this collider: only possible exactly for pose-type partners; try the
+                # cheap variant: replace this collider's rotation by the identity
+                c[key]["R"] = np.eye(3).tolist()
+            attempt(ident)
+
+    def rnd(c, digits):
+        def r(x):
+            if isinstance(x, list):
+                return [r(y) for y in x]
+            if isinstance(x, float):
+                return float("%.*g" % (digits, x))
+            return x
+        for key in ("a", "b"):
+            for f in list(c[key].keys()):
+                if f in ("R", "axes", "n", "triangles", "type"):
+                    continue
+                c[key][f] = r(c[key][f])
+        if "z" in c:
+            c["z"] = r(c["z"])
+    for digits in (3, 6, 9, 12):
+        if attempt(lambda c, digits=digits: rnd(c, digits)):
+            break
+    return cur
+
+
+# ------------------------------------------------------------------------------------------------ oracle run
+def check_scene(ctx, sc, tests=TESTS, stream_tag="search"):
+    """run the tests on a certified scene and report violations. Returns list of (test, result)."""
+    bad = []
+    for t in tests:
+        if not supported(t, sc):
+            continue
+        res = run_test(t, sc)
+        ctx.branch("oracle:" + t, "%s:%s" % (sc["kind"], "ok" if res == expected(sc) else ("exc" if isinstance(res, str) else "WRONG")))
+        if res != expected(sc):
+            bad.append((t, res))
+    key = json.dumps([sc["a"], sc["b"]], sort_keys=True)
+    trivial = (sc["a"]["type"] == "sphere" and sc["b"]["type"] == "sphere" and sc["a"]["r"] == 1.0 and sc["b"]["r"] == 1.0)
+    ctx.count("%s:%s:%s" % (stream_tag, sc.get("stream", "?"), sc["kind"]), key=key, nontrivial=not trivial,
+              sample={"a": sc["a"]["type"], "b": sc["b"]["type"], "kind": sc["kind"], "placement": sc.get("placement"),
+                      "f": sc["f"], "cert": sc["cert"], "delta": sc["delta"]})
+    for t, res in bad:
+        ok, cert, delta = recheck_truth(sc)
+        if not ok:
+            ctx.notes.append("scene lost its certificate on re-check (not reported): %s" % sc.get("placement"))
+            continue
+        fid = classify(t, sc, res)
+        rep = sc
+        if fid is None:
+            k = ctx.extra.setdefault("minimised", {})
+            if k.get(t, 0) < 3:             # minimise the first few failing scenes of each test only (time box)
+                k[t] = k.get(t, 0) + 1
+                rep = minimise(t, sc)
+        ctx.fail(FUNCTION_NAMES[t], {"test": t, "scene": core.jsonable(rep)},
+                 res if isinstance(res, str) else bool(res), expected(sc),
+                 ("separating slab along n with closed-form support values: gap %.6g >= delta %.6g" % (cert, delta))
+                 if sc["kind"] == "sep" else
+                 ("witness point z with independent inner depth %.6g >= delta %.6g in both colliders" % (cert, delta)),
+                 finding=fid)
+    return bad
+
+
+FUNCTION_NAMES = {"jolt": "gjk.gjk_intersection (gjk_intersection_jolt)", "libccd": "gjk.gjk_intersection_libccd",
+                  "mpr": "mpr.mpr_intersection", "nesterov": "gjk.gjk_nesterov_accelerated_intersection",
+                  "nesterov_prim": "gjk.gjk_nesterov_accelerated_primitives_intersection",
+                  "distance": "gjk.gjk (distance query, consistency with the boolean tests)"}
+
+
+def distance_consistent(sc):
+    """the distance query must be positive on certified-separated scenes and (numerically) zero on deep ones"""
+    from distance3d import gjk
+    A, B = make_collider(sc["a"]), make_collider(sc["b"])
+    try:
+        d = gjk.gjk(A, B)[0]
+    except Exception as e:  # noqa
+        return "exc:%s:%s" % (type(e).__name__, str(e)[:100])
+    if sc["kind"] == "sep":
+        return bool(d > 0.0)
+    return bool(d <= 1e-5 * sc["L"])
+
+
+# ------------------------------------------------------------------------------------------------ entry points
+def known_witnesses():
+    path = os.path.join(core.VERIF, "known_findings.d", "C02.json")
+    if not os.path.exists(path):
+        return []
+    return json.load(open(path))
+
+
+def correspondence(ctx):
+    t0 = __import__("time").time()
+    # (1) synthetic loop-body inputs around every branch, implementation called directly
+    k = ctx.budget(250, 6000)
+    for stream in ("L", "G"):
+        run_cases_through_driver(ctx, synth_cases(ctx.rng, stream, k), "syn" + stream, stream)
+    # (2) recorded traces of real runs: certified scenes + grazing (band) scenes
+    n = ctx.budget(260, 8000)
+    cases = []
+    results = {}
+    for i in range(n):
+        stream = "L" if ctx.rng.random() < 0.5 else "G"
+        if ctx.rng.random() < 0.35:
+            sc = gen_band_scene(ctx.rng, stream)
+        else:
+            sc, _ = gen_scene(ctx.rng, stream)
+            if sc is None or not in_domain(sc):
+                continue
+        recs = record_scene(sc)
+        cases += scene_step_cases(sc, recs, cap=12) + run_cases(sc, recs)
+        for t, (res, _) in recs.items():
+            ctx.branch("recorded:" + t, "%s:%s" % (sc["kind"], res if isinstance(res, bool) else "exc"))
+        if len(cases) > 6000:
+            run_cases_through_driver(ctx, cases, "rec", "R")
+            cases = []
+    run_cases_through_driver(ctx, cases, "rec", "R")
+    # (3) steering: grazing lattice scenes until the rare exits of the real runs have been replayed through the model
+    steer_rare_exits(ctx)
+    ctx.extra["correspondence_wall_s"] = round(__import__("time").time() - t0, 1)
+    # exits never reached by a recorded run (reported, not hidden)
+    want = {"C02.jolt.run": [0, 1, 2, 3, 4, 5], "C02.libccd.run": [0, 1, 2, 3, 4, 5],
+            "C02.jolt.step": list(range(7)), "C02.mpr.iterate": [0, 1, 2], "C02.mpr.expand": [0, 1, 2, 3],
+            "C02.mpr.searchdir": [0, 1], "C02.libccd.refine": [0, 1, 2, 3, 4, 5, 6, 7, 8]}
+    unreached = {}
+    for fn, ids in want.items():
+        miss = [b for b in ids if str(b) not in ctx.branches.get(fn, {})]
+        if miss:
+            unreached[fn] = miss
+    mp = ctx.branches.get("C02.mpr.run", {})
+    miss = [d for d in range(7) if not any(k.split("/")[0] == str(d) for k in mp)]
+    miss_r = [r for r in range(3) if not any(k.split("/")[1] == str(r) for k in mp)]
+    if miss or miss_r:
+        unreached["C02.mpr.run"] = {"discover": miss, "refine": miss_r}
+    ctx.extra["unreached_branches"] = unreached
+
+
+def rare_exit_signature(recs):
+    """exit classes of a recorded run that the plain streams seldom reach (derived from the implementation's own
+    records, not from the model)"""
+    sig = []
+    res, rec = recs.get("jolt", (None, {}))
+    st = rec.get("jolt.step", [])
+    if st:
+        inp, out = st[-1]
+        if out[0] == 0 and out[1] == inp[3] + 1:
+            sig.append("jolt:stall" if np.all(np.isfinite(out[4])) else "jolt:noimprove")
+    res, rec = recs.get("libccd", (None, {}))
+    rf, sp = rec.get("libccd.refine", []), rec.get("libccd.support", [])
+    if rf and len(rf) == len(sp):
+        if rf[-1][1][0] == -1:
+            sig.append("libccd:no_contact")
+        elif len(sp) >= 100 and rf[-1][1][0] == 0:
+            sig.append("libccd:cap")
+        elif rf[-1][1][0] == 0 and res is False:
+            sig.append("libccd:zero_dir")
+    elif sp and res is True and len(rf) == len(sp) - 1:
+        sig.append("libccd:support_is_origin")
+    res, rec = recs.get("mpr", (None, {}))
+    sp, d = rec.get("mpr.support", []), rec.get("mpr.discover", [])
+    if d:
+        if d[0][1][0] == -1 and len(sp) == 2:
+            sig.append("mpr:outside_v2")
+        if d[0][1][0] == 1:
+            sig.append("mpr:origin_on_v1")
+        if len(rec.get("mpr.iterate", [])) >= 100:
+            sig.append("mpr:discover_cap")
+    if rec.get("mpr.reach") and rec["mpr.reach"][-1][1][0] is True:
+        sig.append("mpr:tolerance")
+    return sig
+
+
+RARE_EXITS = ["jolt:stall", "jolt:noimprove", "libccd:no_contact", "libccd:cap", "libccd:zero_dir",
+              "libccd:support_is_origin", "mpr:outside_v2", "mpr:origin_on_v1", "mpr:discover_cap", "mpr:tolerance"]
+
+
+def steer_rare_exits(ctx):
+    import time
+    t0 = time.time()
+    got = {k: 0 for k in RARE_EXITS}
+    cases = []
+    tried = 0
+    limit = ctx.budget(1500, 40000)
+    while tried < limit and time.time() - t0 < ctx.budget(12, 300) and min(got.values()) < 2:
+        tried += 1
+        sc = gen_band_scene(ctx.rng, "L" if ctx.rng.random() < 0.8 else "G")
+        recs = record_scene(sc)
+        sig = rare_exit_signature(recs)
+        fresh = [k for k in sig if got[k] < 3]
+        if not fresh:
+            continue
+        for k in fresh:
+            got[k] += 1
+        cases += scene_step_cases(sc, recs, cap=12) + run_cases(sc, recs)
+    run_cases_through_driver(ctx, cases, "steer", "S")
+    ctx.extra["steering"] = {"scenes_tried": tried, "rare_exits_replayed": got,
+                             "never_seen": [k for k, v in got.items() if v == 0]}
+
+
+def systematic_scenes(rng):
+    """every ordered type pair x {sep, deep} x placement class x both streams, a few factors each"""
+    for stream in ("L", "G"):
+        for ta in ALL_TYPES:
+            for tb in ALL_TYPES:
+                for kind, placements in (("sep", ["aligned", "slab"]), ("deep", ["witness", "incentre", "same", "concentric"])):
+                    if kind == "deep" and (ta in FLAT_TYPES or tb in FLAT_TYPES):
+                        continue
+                    for pl in placements:
+                        if pl == "same" and ta != tb:
+                            continue
+                        yield stream, (ta, tb), kind, pl, rng.choice(FACTORS[:4])
+
+
+def search(ctx):
+    import time
+    t0 = time.time()
+    boost = 3 if ctx.extra.get("search_boost") else 1
+    # (0) known-finding witnesses are replayed first
+    for k in known_witnesses():
+        for w in [k.get("witness", {})] + list(k.get("more_witnesses", [])):
+            if "scene" not in w:
+                continue
+            sc = w["scene"]
+            ok, cert, delta = recheck_truth(sc)
+            res = run_test(w["test"], sc)
+            ctx.count("known-witness", key=json.dumps(sc, sort_keys=True))
+            # the finding id is attached only if the mechanism check of `classify` recognises the failure
+            if ok and res != expected(sc) and classify(w["test"], sc, res) == k["id"]:
+                ctx.fail(FUNCTION_NAMES[w["test"]], {"test": w["test"], "scene": sc}, res, expected(sc),
+                         "known-finding witness replay (certificate %.6g >= delta %.6g)" % (cert, delta), finding=k["id"])
+            elif ok and res != expected(sc):
+                ctx.fail(FUNCTION_NAMES[w["test"]], {"test": w["test"], "scene": sc}, res, expected(sc),
+                         "known-finding witness fails in a way its finding does not describe")
+            else:
+                ctx.notes.append("known finding %s no longer reproduces on a listed witness" % k["id"])
+    # (1) systematic sweep over type pairs / placement classes
+    n_sys = 0
+    for stream, types, kind, pl, f in systematic_scenes(ctx.rng):
+        sc, why = gen_scene(ctx.rng, stream, types=types, kind=kind, f=f, placement=pl)
+        if sc is None or not in_domain(sc):
+            ctx.branch("search:skipped", why or "domain")
+            continue
+        check_scene(ctx, sc, stream_tag="sys")
+        n_sys += 1
+    # (2) random scenes
+    n = ctx.budget(13000, 150000) * boost
+    wide = 0
+    for i in range(n):
+        stream = "L" if ctx.rng.random() < 0.4 else "G"
+        sc, why = gen_scene(ctx.rng, stream)
+        if sc is None or not in_domain(sc):
+            ctx.branch("search:skipped", why or "domain")
+            continue
+        check_scene(ctx, sc)
+        if i % 10 == 0:
+            r = distance_consistent(sc)
+            ctx.branch("oracle:distance", "%s:%s" % (sc["kind"], "ok" if r is True else "WRONG"))
+            if r is not True:
+                ok, cert, delta = recheck_truth(sc)
+                if ok:
+                    ctx.fail(FUNCTION_NAMES["distance"], {"test": "distance", "scene": core.jsonable(sc)}, r, True,
+                             "distance query vs independent certificate (cert %.6g, delta %.6g)" % (cert, delta))
+        if time.time() - t0 > ctx.budget(60, 800):
+            ctx.notes.append("search stopped by its time box after %d random scenes" % i)
+            break
+    ctx.extra["search_wall_s"] = round(time.time() - t0, 1)
+    ctx.extra["systematic_scenes"] = n_sys
+
+
+def replay(ctx, payload):
+    args = payload.get("args") or {}
+    if "scene" not in args:
+        for b in payload.get("broken", []):
+            si = b.get("seed_input") or {}
+            if "scene" in si:
+                sc = si["scene"]
+                print("correspondence replay: scene of kind %s (%s vs %s); re-recording" % (sc["kind"], sc["a"]["type"], sc["b"]["type"]))
+                recs = record_scene(sc)
+                cases = scene_step_cases(sc, recs) + (run_cases(sc, recs) if sc["kind"] != "band" or True else [])
+                c2 = core.Ctx(ctx.prop, ctx.tier, ctx.seed)
+                nb = run_cases_through_driver(c2, cases, "replay", "R")
+                for bb in c2.broken[:5]:
+                    print("DISAGREE", bb["name"], bb["message"][:300])
+                return nb == 0
+            if "synthetic" in si:
+                print("synthetic loop-body input of %s: %s" % (si["synthetic"], json.dumps(si.get("inp"))[:600]))
+                print("model vs implementation:", b.get("message"))
+                return False
+        print("replay file names no input:", str(payload.get("broken"))[:500])
+        return False
+    sc, t = args["scene"], args["test"]
+    ok, cert, delta = recheck_truth(sc)
+    print("scene: %s vs %s, kind=%s placement=%s; independent certificate %.9g (delta %.9g) -> %s" % (
+        sc["a"]["type"], sc["b"]["type"], sc["kind"], sc.get("placement"), cert, delta, "certified" if ok else "NOT certified"))
+    if t == "distance":
+        res = distance_consistent(sc)
+        print("distance query consistent:", res)
+        return res is True
+    res = run_test(t, sc)
+    print("%s returned %r, expected %r" % (FUNCTION_NAMES[t], res, expected(sc)))
+    return ok and res == expected(sc)
